@@ -103,6 +103,7 @@ type Enc struct {
 	onceVals    map[*Term]*Term
 	yieldParam  *Term  // the callback parameter of a unit under the `yields` protocol (nil: none)
 	yieldName   string
+	yieldType   types.Type
 	yieldEnv    func(st *State) *evalEnv // the unit's own parameters over a given state (for its `iterates` summary)
 	yieldCells  map[*Term]bool
 	yieldLits   map[*ssa.MakeClosure]bool // literals that capture the callback: true once verified as an iteration body
